@@ -30,8 +30,16 @@ Definition Kmax (c : lcase) : nat :=
   | _ => if 0 <? lc_count c then Z.to_nat (lc_count c) else 40%nat
   end.
 
+(** The plain-meaning oracle reads "tolerated" off the script TEXT, not off the
+    compiled play. *)
+Definition remark (c : lcase) (x : inst) : inst :=
+  match find (fun m => (fst m =? i_action x)%N) (lc_marks c) with
+  | Some (_, fo) => mkInst (i_iter x) (i_act x) (i_scene x) (i_line x) (i_step x) (i_actor x) (i_action x) fo
+  | None => x
+  end.
+
 Definition expected (c : lcase) (K : nat) : list (list (inst * N)) :=
-  number_groups (prescribed (lc_play c) (rspec c) K) [].
+  number_groups (map (map (remark c)) (prescribed (lc_play c) (rspec c) K)) [].
 
 Definition row_of (led : list lrow) (xn : inst * N) : option lrow :=
   find_row led (i_actor (fst xn), i_action (fst xn)) (snd xn).
@@ -123,6 +131,18 @@ Definition repeat_time_bad (c : lcase) (K : nat) : bool :=
      (first2 <? big) && (0 <? last_k) && (lc_timeout c <? last_k - first2))
     (seq 1 (K - 2)).
 
+(** The compiled play (taken from the real parser and compiler) marks a step
+    tolerated iff the script text does. *)
+Definition failok_bad (c : lcase) : bool :=
+  existsb (fun ac => existsb (fun sc => existsb (fun ln => existsb (fun st =>
+      match st with
+      | SDo a fo => match find (fun m => (fst m =? a)%N) (lc_marks c) with
+                    | Some (_, fo') => negb (Bool.eqb fo fo')
+                    | None => true
+                    end
+      | SAmb _ => false
+      end) (l_steps ln)) (s_lines sc)) ac) (lc_play c).
+
 Definition c05_oracle_mask (c : lcase) : N :=
   let K := K_obs c in
   let ex := expected c K in
@@ -137,7 +157,8 @@ Definition c05_oracle_mask (c : lcase) : N :=
  (N.add (bit (negb consistent) 4%N)
  (N.add (bit (negb hard && (lc_spot c <? 3)%N && negb exit0) 8%N)
  (N.add (bit (extra || wrong_count) 16%N)
-        (bit (repeat_time_bad c K) 32%N))))).
+ (N.add (bit (repeat_time_bad c K) 32%N)
+        (bit (failok_bad c) 64%N)))))).
 
 Definition c05_oracle_bad (c : lcase) : bool := negb (c05_oracle_mask c =? 0)%N.
 
